@@ -8,6 +8,7 @@ CONSTANTS
   WithQueries = FALSE
   WithMerge = TRUE
   Profile = "full"
+  Seed = "empty"
 VIEW View
 CONSTRAINT Bound
 INVARIANT TypeOK
